@@ -479,6 +479,7 @@ def run(ctx):
     one_shot(ctx, uberjob)
     opaque_arguments(ctx, uberjob)
     equal_callables(ctx, uberjob)
+    containers_of_nodes(ctx, uberjob)
     import planlevel
     planlevel.equal_constants(ctx, uberjob, False, lambda key, what, replay: ctx.fail(key, what, replay))
     timing(ctx, uberjob)
@@ -1158,3 +1159,62 @@ def sentinel(ctx):
                  "any((isinstance(child, Node) for child in children))", "return root"):
         if frag not in text:
             ctx.broke("sentinel: Plan._gather no longer contains %r" % frag, {"source": text[:600]})
+
+
+def containers_of_nodes(ctx, uberjob):
+    """Containers of symbolic nodes behave as the containers of their VALUES: (a) unpack of a set / dict whose distinct nodes evaluate to equal
+    values sees the collapsed container (and fails when the length no longer matches), exactly as direct evaluation does; (b) the same
+    container expression mentioned twice gives each consumer its OWN container - a call that mutates its argument does not disturb
+    another call or the output."""
+    for workers in (1, 3):
+        # (a)
+        for kind in ("set", "dict-keys"):
+            plan = uberjob.Plan()
+            a, b = plan.call(lambda: 7), plan.call(lambda: 7)
+            box = {a, b} if kind == "set" else {a: 1, b: 2}
+            try:
+                items = plan.unpack(box, 2)
+                out = plan.call(lambda *xs: list(xs), *items)
+                res = uberjob.run(plan, output=out, max_workers=workers, progress=None)
+                oc = "returned %r" % (res,)
+            except uberjob.CallError as e:
+                oc = "callerror" if isinstance(e.__cause__, ValueError) else "callerror caused by %r" % (e.__cause__,)
+            except BaseException as e:      # noqa
+                oc = "raised %s: %s" % (type(e).__name__, e)
+            ctx.case(("containers-of-nodes", "unpack-collapsing", kind, workers))
+            if oc != "callerror":
+                ctx.fail("containers:unpack-collapsing", "unpack(<%s of two nodes that both evaluate to 7>, 2): run %s; direct evaluation unpacks a container of ONE element and "
+                         "raises ValueError" % (kind, oc), {"container": kind, "max_workers": workers})
+        # order: a set of nodes is iterated in the order of the set of VALUES
+        plan = uberjob.Plan()
+        nodes = [plan.call(lambda i=i: i) for i in (8, 6, 3, 7, 2, 5, 4, 1)]
+        out = plan.call(lambda *xs: list(xs), *plan.unpack(set(nodes), 8))
+        ctx.case(("containers-of-nodes", "unpack-set-order", workers))
+        try:
+            res = uberjob.run(plan, output=out, max_workers=workers, progress=None)
+        except BaseException as e:      # noqa
+            res = "raised %s" % type(e).__name__
+        if res != list({8, 6, 3, 7, 2, 5, 4, 1}):
+            ctx.fail("containers:unpack-set-order", "unpack(set of 8 nodes, 8) gave %r; the set of their values iterates as %r" % (res, list({8, 6, 3, 7, 2, 5, 4, 1})), {"max_workers": workers})
+        # (b)
+        for kind in ("list", "set", "dict"):
+            plan = uberjob.Plan()
+            a, b = plan.call(lambda: "x"), plan.call(lambda: "y")
+            mk = (lambda: [a, b]) if kind == "list" else (lambda: {a, b}) if kind == "set" else (lambda: {"p": a, "q": b})
+
+            def drain(c):
+                n = len(c)
+                c.clear()
+                return n
+            first = plan.call(drain, mk())
+            second = plan.call(lambda c: sorted(c.values()) if isinstance(c, dict) else sorted(c), mk())
+            plan.add_dependency(first, second)
+            ctx.case(("containers-of-nodes", "mentioned-twice", kind, workers))
+            try:
+                res = uberjob.run(plan, output=[first, second, mk()], max_workers=workers, progress=None)
+                res = [res[0], res[1], sorted(res[2].values()) if isinstance(res[2], dict) else sorted(res[2])]
+            except BaseException as e:      # noqa
+                res = "raised %s: %r" % (type(e).__name__, getattr(e, "__cause__", None))
+            if res != [2, ["x", "y"], ["x", "y"]]:
+                ctx.fail("containers:mentioned-twice", "the %s of the same two nodes is given to a call that empties it, to a second call and to the output: run gave %r; direct evaluation "
+                         "gives [2, ['x', 'y'], ['x', 'y']] (each mention is its own container)" % (kind, res), {"container": kind, "max_workers": workers})
